@@ -128,6 +128,10 @@ def oracle(lines):
                 fail("impl:refill-null", "a heap bound to an exclusive one-block arena returned NULL for a whole-block request although no block was live and the OS refused nothing "
                      "(%d of the rounds; after a small block was allocated and freed only a retired page keeps the segment: _mi_malloc_generic must collect and retry)" % v,
                      wit0 + "; p = mi_heap_malloc(h, small); mi_free(p); mi_heap_malloc(h, 20 MiB) == NULL")
+            if kname == "full_arena_failure_bad" and v != 0:
+                fail("impl:full-arena-failure", "with the default heap bound to a full exclusive arena an entry point did not report failure the documented way (bits: 1 posix_memalign "
+                     "did not return ENOMEM, 2 it modified its out-parameter, 4 memalign / 8 aligned_alloc / 16 calloc returned non-NULL): %d" % v,
+                     wit0 + "; mi_heap_set_default(bound heap of a full arena); mi_posix_memalign(&p, 64, 20 MiB)")
             if kname in ("setup_failed", "manage_failed", "reserve_failed"):
                 fail("impl:arena-setup", "the harness could not create its arenas (%s)" % kname, wit0)
             stats[kname] += v
